@@ -78,6 +78,7 @@ func (ex *Exec) call(f *frame, st *State, instr ssa.Instruction, cc *ssa.CallCom
 }
 
 func (ex *Exec) callWith(f *frame, st *State, instr ssa.Instruction, cc *ssa.CallCommon, res ssa.Value, args []Term) {
+	ex.curCall = instr
 	sc := ex.sc
 	hint := f.pfx + "call"
 	if res != nil {
@@ -286,6 +287,11 @@ func (ex *Exec) inline(f *frame, st *State, callee *ssa.Function, cc *ssa.CallCo
 	ex.V.inlineSeq++
 	nf := ex.newFrame(callee, fmt.Sprintf("%s/%s.%d:", f.pfx, shortFn(callee), ex.V.inlineSeq))
 	nf.inline = true
+	nf.outer = f
+	if ex.curCall != nil {
+		nf.callInstr = ex.curCall
+		nf.callBlock = ex.curCall.Block()
+	}
 	// closure bindings
 	if ci, ok := f.clos[cc.Value]; ok && len(callee.FreeVars) > 0 {
 		for i, fv := range callee.FreeVars {
